@@ -111,7 +111,8 @@ func (o *offsetReadSeeker) Seek(offset int64, whence int) (int64, error) {
 			o.off = off
 		}
 	case io.SeekEnd:
-		panic("unsupported whence: SeekEnd")
+		// the size of the underlying io.ReaderAt is not known
+		return 0, errors.New("unsupported whence: SeekEnd")
 	}
 	return o.Position(), nil
 }
